@@ -363,10 +363,34 @@ func (cf *compactFlusher) Release() {
 type compactFlusherStreamWriter struct {
 	compactFlusher *compactFlusher
 	table.StreamWriter
+	err error // open next output file failure
+}
+
+// Prepare prepares the writer with specified key, if previous output file is finished(big enough),
+// opens next output file and writes into it.
+func (cfsw *compactFlusherStreamWriter) Prepare(key uint32) {
+	if cfsw.compactFlusher.compactJob.state.builder == nil {
+		if cfsw.err = cfsw.compactFlusher.beforeAdd(); cfsw.err != nil {
+			return
+		}
+		cfsw.StreamWriter = cfsw.compactFlusher.compactJob.state.builder.StreamWriter()
+	}
+	cfsw.StreamWriter.Prepare(key)
+}
+
+// Write writes buffer into current output file.
+func (cfsw *compactFlusherStreamWriter) Write(p []byte) (int, error) {
+	if cfsw.err != nil {
+		return 0, cfsw.err
+	}
+	return cfsw.StreamWriter.Write(p)
 }
 
 // Commit checks if build's file if it is big enough
 func (cfsw *compactFlusherStreamWriter) Commit() error {
+	if cfsw.err != nil {
+		return cfsw.err
+	}
 	// table's StreamWriter Commit won't raise error
 	_ = cfsw.StreamWriter.Commit()
 	return cfsw.compactFlusher.afterAdd()
